@@ -711,6 +711,7 @@ func (s *Server) luaTile38Call(evalcmd string, cmd string, args ...string) (resp
 		return resp.NullValue(), errCmdNotSupported
 	}
 
+	verifPoint(s, "script.call", evalcmd, msg.Args)
 	switch evalcmd {
 	case "eval", "evalsha":
 		return s.luaTile38AtomicRW(msg)
@@ -780,6 +781,7 @@ func (s *Server) luaTile38AtomicRW(msg *Message) (resp.Value, error) {
 		}
 	}
 
+	verifPoint(s, "script.done", msg.Args, res, write)
 	return res, nil
 }
 
@@ -822,6 +824,7 @@ func (s *Server) luaTile38AtomicRO(msg *Message) (resp.Value, error) {
 		return resp.NullValue(), err
 	}
 
+	verifPoint(s, "script.done", msg.Args, res, false)
 	return res, nil
 }
 
@@ -886,6 +889,7 @@ func (s *Server) luaTile38NonAtomic(msg *Message) (resp.Value, error) {
 		}
 	}
 
+	verifPoint(s, "script.done", msg.Args, res, write)
 	return res, nil
 }
 
